@@ -69,6 +69,7 @@ impl<T> Mutex<T> {
 }
 
 impl<T: ?Sized> Mutex<T> {
+    #[track_caller]
     fn acquire(&self) {
         sched();
         loop {
@@ -78,9 +79,18 @@ impl<T: ?Sized> Mutex<T> {
                 st.owner = core::me();
                 return;
             }
-            if st.owner == core::me() && st.owner != usize::MAX {
-                // std would deadlock (or panic); report it the way a stuck thread shows up
-                panic!("simrt: thread re-locks a Mutex it already holds (self-deadlock)");
+            if st.owner == core::me() && st.owner != usize::MAX && !std::thread::panicking() {
+                // std's Mutex deadlocks here (it may also panic, but the futex implementation the
+                // database ships on does not): the thread is stuck for good, holding the lock. A
+                // panic would be wrong — the database's worker loop catches panics and the
+                // request would merely fail. Recorded like a dead thread, then parked forever.
+                core::record_stuck(core::me(), &format!("self-deadlock: thread re-locks a Mutex it already holds ({})", std::panic::Location::caller()));
+                loop {
+                    core::park_on("mutex-self-deadlock");
+                    if core::exec_over() {
+                        break;
+                    }
+                }
             }
             let me = core::me();
             if !st.waiters.contains(&me) {
@@ -102,6 +112,7 @@ impl<T: ?Sized> Mutex<T> {
         }
     }
 
+    #[track_caller]
     pub fn lock(&self) -> LockResult<MutexGuard<'_, T>> {
         self.acquire();
         let g = MutexGuard { m: self };
